@@ -87,6 +87,11 @@ def configs(tier):
                 cfg = dict(BASE)
                 cfg.update({"network-files": "ice.ucl", "file-formats": "uclchem", "grain-model": model, "binding": binding, "yield": yld, "extra-species": "H, H2"})
                 add(cfg, "family:ice-tables")
+    # a key given twice in a table option (an override appended to a list): the later value is the one that counts
+    for binding, yld in (("#CO=1100.0,#H2O=4800.0,#CO=1300.0", ""), ("", "#CO=0.001,#H2O=0.004,#CO=0.25"), ("#CO=1100.0,#CO=1300.0", "#H2O=0.004,#H2O=0.002")):
+        cfg = dict(BASE)
+        cfg.update({"network-files": "ice.ucl", "file-formats": "uclchem", "grain-model": "hh93", "binding": binding, "yield": yld, "extra-species": "H, H2"})
+        add(cfg, "family:ice-tables-repeated-keys")
     # ... and the same with table keys that only match a network species after the replacement table was applied
     for rep in ("SI:Si,HE:He,E:e", "SI: Si, HE: He, E: e"):
         for binding in ("", "#SIO=4100.0", "#SIO=4100.0,#CO=1300.0"):
